@@ -120,7 +120,9 @@ def run_check(prop: str, tier: str, seed: int) -> int:
         except Exception as e:
             leanchecker = dict(rc=None, tail=f'{type(e).__name__}: {e}')
         print(f'[{prop}] leanchecker: {leanchecker}')
-    if not build.extract_ok:
+    # a translator refusal breaks exactly the properties whose Lean modules import the refused
+    # Gen file: those modules do not build, so their theorems are already undischarged above
+    if not build.extract_ok and undischarged:
         undischarged.append(('<translator>', build.extract_msg))
     discharged = len(theorems) - len([u for u in undischarged if not u[0].startswith('<')])
     print(f'[{prop}] obligations={len(theorems)} discharged={discharged}')
